@@ -954,7 +954,7 @@ def without_mro(canon):
 def run_grammars(chk: Check, mr: ModelRun):
     rng = chk.rng
     ngram = 28 if chk.quick else 260
-    nforest = 16 if chk.quick else 160
+    nforest = 16 if chk.quick else 100
     ninputs = 8 if chk.quick else 16
     shrunk_hier: dict = {}
     tie_batch: list = []
